@@ -191,10 +191,11 @@ MN = ('MD5', 'SHA1', 'SHA256', 'SHA512', 'RMD160', 'WHIRLPOOL', 'BLAKE2B', 'BLAK
 
 
 def k_metadata(b0: bool, b1: bool, b2: bool, b3: bool, b4: bool, b5: bool, b6: bool,
-               b7: bool, b8: bool, b9: bool, size: int):
+               b7: bool, b8: bool, b9: bool, size: int, st_size: int = -1):
     want = [n for n, b in zip(MN, (b0, b1, b2, b3, b4, b5, b6, b7, b8, b9)) if b]
     digests = {hl: 'value-of-' + hl for hl in MANIFEST_HASH_MAPPING.values()}
-    f = ve.OneFile('regular', st_size=size, true_size=size, digests=digests)
+    hint = size if st_size == -1 else st_size       # st_size is only a hint (sysfs, races)
+    f = ve.OneFile('regular', st_size=hint, true_size=size, digests=digests)
     with ve.Installed(f):
         g = gv.get_file_metadata('/r/f', list(reversed(want)))
         vals = list(g)
@@ -203,8 +204,8 @@ def k_metadata(b0: bool, b1: bool, b2: bool, b3: bool, b4: bool, b5: bool, b6: b
         want + ['__size__']))
     for n in want:
         ok = ok and res[n] == 'value-of-' + GLEP[n]
-    # the file was hashed once, with the true st_size as hint
-    ok = ok and f.hash_args[1] == size
+    # the content was read (the size is that of the content, not of the stat record)
+    ok = ok and f.hashed
     return ok, len(want) >= 2
 
 
@@ -240,6 +241,16 @@ def conditions(tier):
                        descr=f'get_hash_by_name({HNAMES[i]!r}): size pseudo-hash, '
                              'hashlib.new(name) iff available, else UnsupportedHash(name)',
                        bounds='one concrete name per condition'))
+    def wrong_hint(b0: bool, b1: bool, size: int, st_size: int):
+        return k_metadata(b0, b1, False, False, False, False, False, False, False, False,
+                          size, st_size)
+    cs.append(Cond('metadata_wrong_hint', wrong_hint,
+                   lambda b0, b1, size, st_size: size >= 0 and st_size >= 0, timeout=300,
+                   group='metadata',
+                   descr='get_file_metadata when st_size differs from the real content '
+                         'length (0, smaller, larger), for no, one or two requested hashes: '
+                         '__size__ is the number of bytes read',
+                   bounds='size and st_size any int >= 0; subsets of {MD5, SHA1}'))
     cs.append(Cond('metadata', k_metadata, lambda **kw: kw['size'] >= 0, timeout=600,
                    group='metadata',
                    descr='get_file_metadata for any subset of the ten Manifest hash names '
@@ -269,6 +280,9 @@ def validate(seed, tier):
             n += 1
     return n, [{'lengths': 'around 64 KiB and 1 MiB', 'hints': '0/true/half/double'}], errs
 
+
+# validate() compares the real implementation with the property itself
+VALIDATION_CHECKS_PROPERTY = True
 
 ASSUMPTIONS = ['hashlib computes the standard digests (C code); a hash object that was fed '
                'the whole content in order returns the digest of the content',
